@@ -19,6 +19,8 @@ Conventions
   `Gen.recordLen` / `Gen.fieldLayout`.
 Core only (no Std, no Mathlib).
 -/
+set_option linter.unusedVariables false
+
 namespace B.Serial
 open B
 
